@@ -3,6 +3,7 @@ import GB.C20.Model
 import GB.C20.Spec
 import GB.C20.Bridge
 import GB.C03.Driver
+import GB.C06.Compose
 /-
   C20 driver. Case lines (byte strings hex-encoded, lists comma-separated, `-` = empty list):
 
@@ -10,6 +11,10 @@ import GB.C03.Driver
     st <tmpl>    => err | ok <VerifDump()>                                   strict Parse
     ga <tmpl>    => ERR | <ast>                                              gwbased Parse, structural export, in the
                                                                              format of the C03 slice (`C03.showAst`)
+    build <tmpl> => reject | ok <ops> <pool> <vars> <stacksize> <tailLen> <verb>   routing.buildPattern (the glue
+                                                                             PatternRouter uses), pattern read by reflection
+    route <tmpl> <path> => found | code:<grpc code>                          a real PatternRouter: Watch, UpdateDesc with
+                                                                             the template as the one GET binding, RouteHTTP
     gtok <path>  => <tokens> <verb>                                          gwbased tokenize
     stok <path>  => <tokens>                                                 strict tokenize
     trie <method:tmpl,…> <method> <path> => none | found <tmpl>              strict Trie Add*/Find
@@ -151,6 +156,39 @@ def handleTrie (es : List (Bytes × Bytes)) (method path : Bytes) (out : List St
   | w :: _ => if w.startsWith "PANIC" then s!"DIFF model={mstr} impl=PANIC" else "BAD trie out"
   | [] => "BAD trie out"
 
+def showPattern (p : C03.Pattern) : String :=
+  let ops := if p.ops.isEmpty then "-" else ",".intercalate (p.ops.map (fun o => s!"{o.code}.{o.operand}"))
+  s!"ok {ops} {hexList p.pool} {hexList p.vars} {p.stacksize} {p.tailLen} {toHex p.verb}"
+
+/-- `build`: accept iff `validTemplateB` (= Valid, `C20_buildPattern_is_parse_compile`), pattern = model's -/
+def handleBuild (s : Bytes) (out : List String) : String :=
+  let implOk := firstWord out == "ok"
+  let m := match buildPatternM s with
+    | some p => showPattern p
+    | none => "reject"
+  let impl := " ".intercalate (if firstWord out == "PANIC" then ["PANIC"] else out)
+  let derivable := (specParseWith true s).isSome
+  let valid := validTemplateB s
+  if implOk && !derivable then s!"VIOL invalid-template-accepted-by-buildPattern: {rejectClass s} (model={m})"
+  else if !implOk && valid then s!"VIOL valid-template-rejected by buildPattern (model={m})"
+  else if impl != m then s!"DIFF model={m}"
+  else s!"OK{if implOk || plausible s then " nt" else ""} b=build-{firstWord out}"
+
+def oneBindingDesc (tmpl : Bytes) : C06.Desc :=
+  ⟨[116], 1, [⟨[83], [⟨[47, 83, 47, 77], [⟨[71, 69, 84], tmpl⟩]⟩]⟩]⟩
+
+/-- `route`: the chain model (`C20_route_chain`) on the one-binding description -/
+def handleRoute (tmpl path : Bytes) (out : List String) : String :=
+  let st := C06.PatState.init.run (C06.validC gwC03) [.watch [116], .update [116] (oneBindingDesc tmpl)]
+  let m := match C06.routeHTTPm gwC03 (fun _ => true) st.static [71, 69, 84] path with
+    | .found _ _ _ _ => "found"
+    | .status c => s!"code:{c}"
+  let impl := " ".intercalate (if firstWord out == "PANIC" then ["PANIC"] else out)
+  if !(specParseWith true tmpl).isSome && impl != "code:5" then
+    s!"VIOL invalid-template-routed: a binding whose template is outside the grammar ({rejectClass tmpl}) answers {impl}, want NotFound"
+  else if impl != m then s!"DIFF model={m}"
+  else s!"OK{if m == "found" then " nt" else ""} b=route-{m}"
+
 def handle : Handler
   | ["gw", hx], out =>
     match parseHex hx with
@@ -169,6 +207,14 @@ def handle : Handler
         | .error _ => "ERR"
       if " ".intercalate out != m then s!"DIFF model={m}" else (if m == "ERR" then "OK b=ga-err" else "OK nt b=ga-ast")
     | none => "BAD hex"
+  | ["build", hx], out =>
+    match parseHex hx with
+    | some s => handleBuild s out
+    | none => "BAD hex"
+  | ["route", hx, px], out =>
+    match parseHex hx, parseHex px with
+    | some s, some p => handleRoute s p out
+    | _, _ => "BAD hex"
   | ["gtok", hx], out =>
     match parseHex hx with
     | some s =>
